@@ -323,6 +323,31 @@ func genCases(seed int64, tier string, w *bufio.Writer) (int, error) {
 				}
 			}
 		}
+		// a record turned into one with an unknown opcode AND a hostile length (the length of a record that is only skipped
+		// is consumed differently from the length of one that is read)
+		for _, f := range refmcap.Fields(base) {
+			if f.Name != "record_length" || f.Off == 0 {
+				continue
+			}
+			for _, lv := range []struct {
+				name string
+				v    uint64
+			}{{"2^63", 1 << 63}, {"2^64-9", ^uint64(0) - 8}, {"2^64-43", ^uint64(0) - 42}, {"2^32", 1 << 32}, {"2^31-1", 1<<31 - 1}} {
+				for _, op := range []byte{0x80, 0xff} {
+					mut := append([]byte{}, base...)
+					mut[f.Off-1] = op
+					putUint(mut, f.Off, 8, lv.v)
+					for _, ev := range eps {
+						if tier == "quick" && bn != "chunked-none" && op == 0xff {
+							continue
+						}
+						if err := emit(hcase{EP: ev[0].(string), Seek: ev[1].(bool), Data: mut, Base: bn, Rec: f.Rec, Fld: "unknown+record_length", Mag: lv.name, Kind: "unknownlen", InCh: f.InChunk}); err != nil {
+							return n, err
+						}
+					}
+				}
+			}
+		}
 		// truncations at every record boundary and inside every length field
 		for _, f := range refmcap.Fields(base) {
 			if f.Name != "record_length" {
